@@ -314,6 +314,13 @@ func runStrategyScenario(c *fw.Case, prop string) {
 		}
 		c.Count("tier2_jobs", int64(len(res.Jobs)))
 		if res.Err != nil {
+			if knownHang && strings.Contains(res.Err.Error(), "building wasm module tree: store") && strings.Contains(res.Err.Error(), "not found") {
+				// second manifestation of the recorded finding C05/stage-index-shift (the store stages are dropped when no store has
+				// to be built): with the outputs already cached the request does not hang, its linear part starts without the
+				// stores that begin at or after the hand-off. Own signature, listed in known_findings.json.
+				c.Violation(prop+"/stage-index-shift/linear-part-store-not-found", "request of the recorded stage-index-shift shape whose outputs were already cached: the linear part fails: "+res.Err.Error(), s.witness(extra))
+				return
+			}
 			c.Violation(prop+"/request-failed/"+fw.NormalizeMsg(res.Err.Error()), "a valid request failed: "+res.Err.Error(), s.witness(extra))
 			return
 		}
